@@ -55,7 +55,10 @@ theorem loop_limits_pinned :
 
 /-- `if size < 1` / `if size > 1e6` in const_range.go -/
 theorem const_range_limit_pinned :
-    Gen.Pipeline.constRangeMaxSize = constRangeMax ∧ Gen.Pipeline.constRangeMinSize = 1 := by decide
+    Gen.Pipeline.constRangeMaxSize = constRangeMax ∧ Gen.Pipeline.constRangeMinSize = 1 ∧
+    -- fix 426e727: emptiness is decided on the bounds; a size that wraps below 1 skips the fold
+    Gen.Pipeline.constRangeEmptyTest = "max.Value < min.Value" ∧
+    Gen.Pipeline.constRangeSkipTest = "size < 1 || size > 1e6" := by decide
 
 /-- the operators each pass compares `Operator` with -/
 theorem operator_sets_pinned :
@@ -707,17 +710,15 @@ theorem budget_witness :
 /-- `len(0..9223372036854775807)` -/
 def t14 : Node := .builtin (mI 0) "len" [.binary (mA 5) ".." (.int (mI 4) 0) (.int (mI 7) 9223372036854775807)]
 
-/-- the code as it is, with the proposed repair of const_range.go in place -/
-def Flags.next : Flags := { Flags.asIs with constRangeNoOverflow := true }
-
-/-- (c02:const-range-size-overflow) `size := max - min + 1` wraps below 1 for a range of 2^63 elements, and
-    const_range.go folds it to the EMPTY constant: `len(0..9223372036854775807)` is 0 when optimised, while the
-    range itself exceeds every budget.  With emptiness decided by `max < min` the fold is skipped.
-    (On the real VM the deviation is masked as long as OpRange computes its size with the same overflow.) -/
+/-- (c02:const-range-size-overflow, fixed by 426e727) `size := max - min + 1` wraps below 1 for a range of 2^63
+    elements, and const_range.go folded it to the EMPTY constant: `len(0..9223372036854775807)` was 0 when optimised,
+    while the range itself exceeds every budget.  With emptiness decided by `max < min` the fold is skipped.
+    (On the real VM the deviation was masked while OpRange computed its size with the same overflow.) -/
 theorem const_range_overflow_witness :
-    (∃ n', optimize Flags.asIs [] w0 t14 = .ok n' ∧ (Spec.run (cfg (.map [])) none n').1 = .ok (.int .int 0)) ∧
+    (∃ n', optimize { Flags.asIs with constRangeNoOverflow := false } [] w0 t14 = .ok n' ∧
+      (Spec.run (cfg (.map [])) none n').1 = .ok (.int .int 0)) ∧
     (Spec.run (cfg (.map [])) none t14).1 = .error .budget ∧
-    optimize Flags.next [] w0 t14 = .ok t14 :=
+    optimize Flags.asIs [] w0 t14 = .ok t14 :=
   ⟨⟨_, rfl, rfl⟩, rfl, rfl⟩
 
 theorem fnsOfEnv_nil (c : SCfg) : FnsOfEnv c [] := by intro _ _ h; cases h
@@ -811,7 +812,6 @@ passed at their annotated kind (69d5a9a).  What remains as hypothesis, at the si
 * `KindSound`: the static kind of the left operand of `in` is its dynamic kind (soundness of the checker, C03);
 * integer literals are Go `int`s; the annotation of a folded node agrees with its literal (`FoldOKf`); the
   literals of `%` and the bounds of a literal range are annotated `int` (the checker never retypes those);
-* the distance of the bounds of a literal range does not overflow `int` (`ConstRangeOK`);
 * the functions registered with ConstExpr are the environment's (`expr.ConstExpr` takes them from `Env`);
 * NOT covered (the filter `g` must exclude them, see `hrun`): folding of `**` (IEEE operations are opaque to
   the kernel) and folding of literal arrays (`fold_int_array`: only `ObsEq`, and `==` / function parameters
@@ -832,7 +832,8 @@ def GuardNow (c : SCfg) (fns : ConstFns) : Pass → Node → Prop
     ∀ id, fns.lookup name = some id → ∀ vs, callMember c.world c.env name vs = c.world.call id vs
   | .inRange, .binary _ _ l (.binary _ _ (.int mf a) (.int mt b)) =>
     IntLitOK mf a ∧ IntLitOK mt b ∧ KindSound c l ∧ (c.rangeSizeSigned = true → a ≤ b + 1)
-  | .constRange, N => ConstRangeOK c Flags.asIs N
+  | .constRange, .binary _ op (.int ma lo) (.int mb hi) =>
+    op = ".." → IntLitOK ma lo ∧ IntLitOK mb hi ∧ (c.rangeSizeSigned = true → lo ≤ hi + 1)
   | _, _ => True
 
 /-- for the code as it is now the fold guard asks nothing about the annotation of the literals of `+ - * /` -/
@@ -855,7 +856,15 @@ theorem guardNow_imp (fns : ConstFns) (p : Pass) (N : Node) (h : GuardNow c fns 
     GuardOK c Flags.asIs fns p N := by
   cases p with
   | fold => exact h
-  | constRange => exact h
+  | constRange =>
+    simp only [GuardOK]
+    unfold ConstRangeOK
+    split
+    · simp only [GuardNow] at h
+      intro hop
+      obtain ⟨ha, hb, hs⟩ := h hop
+      exact ⟨ha, hb, (fun hf => (by cases hf)), hs⟩
+    · trivial
   | inArray =>
     simp only [GuardOK]
     unfold InArrayOK
@@ -1050,8 +1059,8 @@ theorem optimizeWith_withWA (fl : Flags) (hf : fl.foldPlainOnly = true) (fns : C
 
 /-- **Transparency of the optimizer as it is now, for well-annotated (type-checked) trees.**
     Hypotheses that remain, at the sites where a rewrite fires (`g`, `hrun`):
-    `KindSound` of the left operand of `in` (the checker's soundness, C03), Go-int bounds of literal ranges whose
-    distance does not overflow, ConstExpr functions taken from the environment (`GuardNow`, passes other than
+    `KindSound` of the left operand of `in` (the checker's soundness, C03), Go-int bounds of literal ranges,
+    ConstExpr functions taken from the environment (`GuardNow`, passes other than
     fold); at fold sites only `FoldRest`: no `**`, no literal-array fold (#12), `%` on `int`-annotated literals.
     The conclusion excuses exactly a budget error of the original run (#13). -/
 theorem optimize_transparent_checked_partial (fns : ConstFns) (g : Guard)
